@@ -299,7 +299,9 @@ impl Op {
                 K::Attr => m.append_special(*p, *c, true),
                 K::Ns => m.append_special(*p, *c, false),
                 _ => match m.append(*p, *c) {
-                    Pred::Done(_) => Pred::Done(Some(*c)),
+                    // the node that holds the appended content: the node itself, or the text
+                    // node it was merged into
+                    Pred::Done(_) => Pred::Done(Some(if m.exists_live(*c) { *c } else { *m.n(*p).kids.last().unwrap() })),
                     o => o,
                 },
             },
